@@ -85,7 +85,13 @@ func genQuery(r *Rng, m *qMeta) []string {
 	G := m.Groups
 	small := !m.Big
 	for {
-		switch r.Intn(54) {
+		switch r.Intn(57) {
+		case 54, 55:
+			// analytic functions whose parameters are taken from the rows (evaluated once per partition, per worker)
+			return []string{"SELECT id, LAG(v, 1, v) OVER (PARTITION BY g ORDER BY id) AS l1, LEAD(s, 2, s) OVER (PARTITION BY g ORDER BY id) AS l2, LAG(v, 1, id) OVER (PARTITION BY id % 7 ORDER BY id) AS l3 FROM a;", "SELECT id, NTH_VALUE(v, 2) OVER (PARTITION BY g ORDER BY id) AS n1, FIRST_VALUE(s) OVER (PARTITION BY id % 9 ORDER BY id) AS f1, LEAD(v, 1, -g) OVER (PARTITION BY id % 5 ORDER BY id DESC) AS l4 FROM a;"}
+		case 56:
+			// row-level functions that build a view of their own from the current record
+			return []string{"SELECT JSON_OBJECT(id AS x, s AS y) AS j, JSON_OBJECT(s AS y, INTEGER(v) AS x) AS k FROM a;", "SELECT id, JSON_OBJECT(id, g, v AS val, UPPER(s) AS up), JSON_OBJECT() FROM a WHERE id > 0;"}
 		case 52, 53:
 			// expressions evaluated inside every group's own view (ORDER BY inside list functions, nested aggregates), many groups
 			return []string{"SELECT g, COUNT(*), LISTAGG(s, ',') WITHIN GROUP (ORDER BY v * 2, id) FROM a GROUP BY g;", "SELECT id % 40 AS k, COUNT(*), LISTAGG(s, '') WITHIN GROUP (ORDER BY id * -1), JSON_AGG(v + 1) FROM a GROUP BY id % 40;", "SELECT g, SUM(v * 2), MAX(UPPER(s) || STRING(id)), usum(v + id) FROM a GROUP BY g HAVING COUNT(*) > 0;"}
